@@ -73,9 +73,16 @@ def check_level(ctx, child, rng, where):
     if not ok or len(sel) == 0:
         return
     n = len(sel)
+    root = parent
+    while root.format == "hierarchy":
+        root = root.hparent
+    scalar_only = root.format == "tdms"    # the tdms handler documents integer access only
     for f in parent.features_loaded:
         if f not in parent or f == "index":
             # "index" is the enumeration 1..N of each member by design
+            continue
+        if scalar_only and f in ("image", "image_bg", "mask", "contour", "trace"):
+            ctx.count("skipped_tdms_nonscalar_feature")
             continue
         try:
             pobj = parent[f]
